@@ -293,6 +293,23 @@ CLAIMS['C18'] = dict(
     'points.', technique='CAS on lifted curve maps + shape rules + constant '
     'folding of the guard over the slab size', engine='E6-mesh')
 
+CLAIMS['C16'] = dict(
+    category='other',
+    text='Rank analysis of all scalar contexts for all admitted input '
+    'shapes (decides that boundary targeting cannot fail on array-to-scalar '
+    'conversion -- the recorded defect F2); symbolic geometry of children '
+    'and root meshes; midpoint sharing, registration of edges and parent '
+    'edges; balance closure shape with level exactly one less; leaf '
+    'bookkeeping; the normalisation / containment / coincidence / descent '
+    'structure of the boundary search and unique vertex lookup.  '
+    'Termination for all dyadic segments depends on numeric tolerances and '
+    'is not decided.',
+    design_ref='DESIGN.md section 3 E6/E8 (R-scalar), section 4 C16',
+    note='Trusted: ast, the NumPy>=2 scalar-conversion rule.  Not decided: '
+    'termination/uniqueness of the returned leaf (tolerances).',
+    technique='rank (shape) abstract interpretation + symbolic child '
+    'geometry + normalised-AST shape rules', engine='E6-mesh')
+
 PENDING = 'rule set not yet implemented in this build (see DESIGN.md Appendix F for the order)'
 NA = {
     'C13':
